@@ -11,6 +11,7 @@ Rules (DESIGN.md section 3, C19):
   NO-SHARED-STATE  no writable file-scope/static state besides the context pointer (thread-local under MULTI)
   INSTALL-MUST     (c19_install.py) every normal return of a parameter setter passed the installation sequence
   INIT-RESET       (c19_order.py) every ->X_id identifier a selection stores is also stored on the way from core_init
+  FLAG-BOTH        (c19_stale.py) a context flag that a setter only gives constants is stored on every returning path
   STALE-READ       (c19_stale.py) a function that assigns a context field does not read it before its own assignment
   SET-ORDER        (c19_order.py) a setter stores a context field before calling anything that (transitively) reads it
   HIST-FREE        (c19_hist.py) no context field is updated from its own old value before the same call assigned it
@@ -750,6 +751,7 @@ def selfcheck(ctx, prog, chk):
     c19_order.rule_init_reset(ctx, prog, chk)
     from . import c19_stale
     c19_stale.analyse(ctx, prog, chk)
+    c19_stale.rule_flag_both(ctx, prog, chk)
 
 
 def run(ctx, chk):
@@ -778,6 +780,8 @@ def run(ctx, chk):
     chk.floor("STALE-READ", "reads of context fields in functions that assign them", ns, 40)
     for cfg in ("P255", "P381"):
         c19_stale.analyse(ctx, ctx.program(cfg), chk)
+    nf = c19_stale.rule_flag_both(ctx, ctx.program("BASE"), chk)
+    chk.floor("FLAG-BOTH", "context flags that a function only gives constants", nf, 15)
     if chk.tier == "thorough":
         for cfg in ("P255", "P381"):
             p = ctx.program(cfg)
